@@ -95,6 +95,16 @@ func NewWithBigInt(coeff *BigInt, exponent int32) *Decimal {
 	return d
 }
 
+// isDigits reports whether s is a non-empty sequence of ASCII decimal digits.
+func isDigits(s string) bool {
+	for i := 0; i < len(s); i++ {
+		if s[i] < '0' || s[i] > '9' {
+			return false
+		}
+	}
+	return len(s) > 0
+}
+
 func consumePrefix(s, prefix string) (string, bool) {
 	if strings.HasPrefix(s, prefix) {
 		return s[len(prefix):], true
@@ -155,6 +165,11 @@ func (d *Decimal) setString(c *Context, s string) (Condition, error) {
 		exp := int64(len(s) - i - 1)
 		exps = append(exps, -exp)
 		s = s[:i] + s[i+1:]
+	}
+	// The integer parser below also accepts a leading sign, which the numeric
+	// string grammar does not allow inside the mantissa (".-5").
+	if !isDigits(s) {
+		return 0, fmt.Errorf("parse mantissa: %s", s)
 	}
 	if _, ok := d.Coeff.SetString(s, 10); !ok {
 		return 0, fmt.Errorf("parse mantissa: %s", s)
